@@ -20,7 +20,7 @@ n = len(r)
 txt = open(f"{V}/tools/design_asbuilt.md").read()
 txt += f"""### 10.8 Seeded changes: which check catches which change
 
-{n} breaking changes were produced in six rounds by fresh sub-agents that saw only the text of one
+{n} breaking changes were produced in eight rounds by fresh sub-agents that saw only the text of one
 property and a scratch worktree under /tmp (round 1: two per property, ids `Cnn-1`, `Cnn-2`;
 round 2: one more per property, `Cnn-3`, asked to look away from the most obvious place; round 3:
 `Cnn-4`, given one-line descriptions of the earlier changes to that property and asked for something
@@ -30,7 +30,10 @@ second module, a process setting, a file already at the output path - to show; r
 additionally pointed at kinds of slip not yet tried: state kept between calls, dependence on the
 process environment, iteration order or identity, byte-length boundaries, broader/narrower `except`,
 early exits from loops, truthiness of optional values; round 6: `Cnn-7`, asked for an effect that
-shows only on an unusual but legitimate input or situation). Each
+shows only on an unusual but legitimate input or situation; round 7: `Cnn-8`, the same with all
+earlier descriptions listed and interactions of two features, error and clean-up paths and values at
+the edge of their range suggested; round 8: `Cnn-9`, pointed at the way the code uses its libraries
+and at the stand-alone tools). Each
 was confirmed by me (applies to HEAD, suite still 147 passed, its own `demo.py` exits 0 without
 and 1 with the change — `seeded/<id>/confirm.txt`) and is kept as
 `seeded/<id>/{{patch.diff, demo.py, notes.md, meta.json}}`. `tools/seed_matrix.py` applies each to
@@ -173,7 +176,72 @@ What the seeded changes taught, and what was added to the checks because of them
   (= C14-5) -> public RSA objects given by raw attributes with exponents of 1, 3, 4, 254, 255, 256,
   257 octets; C19-7 (= C06-5) -> inventory of a configured KSK whose key-tag sum carries after the
   fold, with its true tag and with tag + 1.
-* Everything else in the six rounds was caught by the check as it stood.
+* Round 7 (`Cnn-8`): this time I read the twenty descriptions before the first sweep and added the
+  inputs they called for; the first sweep then had 18 of 20 reported by their own check with a
+  failing input, C19-8 only through a harness stop and C11-8 not at all. Added before the sweep:
+  C01 DS digests configured in lower/mixed case; C03 "the token attached to this ceremony made
+  every requested signature" (sign log against the schema); C04 every algorithm name the
+  configuration accepts claimed for an RSA token key; C05 equal expirations with fixed bundle ids;
+  C06/C12 EC keys whose X coordinate starts with 0x04; C07 key pairs whose octet order differs from
+  the order of their base64 texts; C08 keys on a second HSM / split over HSMs; C09 schemas with a
+  gap before the next signer; C10 ZSK twins with colliding key tags rolled through a ceremony
+  chain; C11 the safety check called between signing and writing; C13 the log-contents switches
+  with brace patterns in field values; C14 `hexdigest`/`to_xml` on digests with leading zeros;
+  C16 key tags 1 and 65535; C17 the size cap against the logged digest; C18 two configured EC KSKs
+  with equal key tags; C19 inventory of a token key with tag 65535; C20 another key under a known
+  identifier with an expectation by construction. Added after the sweep: C11-8 (the retire-safety
+  check, rewritten with set operations, removes revoked keys from the response it is checking) ->
+  C11 now signs a roll-with-revocation after an SKR signed by one key, runs both safety checks
+  against it and compares the response with a freshly built one before writing; C19-8 (key tag
+  upper bound exclusive) -> a configuration with possible key tags that is refused is a reported
+  violation with the configuration as replay, not a harness stop.
+* Round 8 (`Cnn-9`) was the hardest: the first sweep had only 3 of 20 reported by their own check
+  with a failing input (C02, C06, C15), 3 more through a broken bridge or correspondence without
+  an input (C04, C05, C18) and 14 not at all. Four of the twenty (C08-9, C10-9, C20-9 and in
+  effect C04-9) depend on the process environment. All twenty are now reported by their own
+  property's check with a failing input. What was added:
+  C08-9/C10-9/C20-9 (`astimezone` instead of `replace(tzinfo=utc)` in `parse_datetime`: zone-less
+  and `Z` timestamps read in the host's time zone) -> file-to-verdict cases in C08 (overlap lattice
+  x {{UTC, JST-9, PST8, IST-5:30}} x three timestamp notations), every C10 ceremony run under a zone
+  and notation taken in turn from a list (and the emitted SKR's periods compared with the KSR's),
+  C20 uploads judged by a receiver running in another zone, expectations by construction;
+  C01-9 (public object's session used with the private handle) -> public object on the first HSM,
+  private object without public attributes on the second, other pairs in front so that handles
+  differ; C03-9 (a failed login is retried at the next key lookup) -> an error *returned by the
+  token* at any position must end the ceremony unsuccessfully (previously a run that still produced
+  a complete valid SKR was tolerated), and every session set-up step is always among the fault
+  positions; C04-9 (`assert` instead of `raise` for size/exponent) -> C04's deterministic scenarios
+  are judged a second time in a child interpreter started with `-O`; C05-9 (cycle length as
+  max - min of the inceptions) -> timelines whose last, first or a middle bundle starts out of step,
+  bounds placed on the span and on the widest distance; C07-9 (Original TTL 0 replaced by the TTL
+  through `or`) -> Original TTL 0 honestly signed and as a tampering - and, more generally,
+  `lib/etread.py`: every KSR document judged through `reqcases` is also read with ElementTree and
+  the standard library, and the implementation's parsed bundles, keys and signatures are compared
+  with it field by field, so that a misreading shared by implementation and spec transcription is
+  reported as "judged on values the document does not state"; C09-9 (`P1W4D` read as seven days)
+  -> the configured safety periods written in weeks, hours, minutes, seconds and mixed notations in
+  C09's ceremonies and in C16's value table; C11-9 (`splitlines()` in the writer's indenter) ->
+  bundle, request and key identifiers containing U+2028, U+2029, U+0085, inner blanks, non-ASCII
+  letters; C12-9 (`b64decode(validate=True)` for EC keys) -> base64 content broken into lines
+  (one key written the same way wherever it occurs - see the observation below), octets and verdict
+  compared with the one-line form; C13-9 (decoded keys cached by identifier for the life of the
+  process) -> sequences of files in one loader process in which a later file lists other keys under
+  known identifiers, signed by the first file's keys or honestly, and the loader worker re-verifies
+  every signature of a returned object with the cryptography library alone; C14-9 (RRSIG key tag
+  taken from the un-revoked form) -> the signer run on a revoke-and-sign schema for all four
+  algorithms inside C14, RRSIG key tag compared with the published DNSKEY's; C16-9 (`and ... or
+  ignore_exponent` without parentheses) -> rows "key size not declared" and "key exponent not
+  declared" in the one-flag-one-check matrix; C17-9 (write error swallowed, digest logged anyway)
+  -> the trust-anchor exporter run into a missing directory, onto a directory and with a write that
+  fails half way, the logged digest compared with what the named file holds; C18-9 (digest printed
+  with `int` formatting) -> configured KSKs whose DS digest begins with one and two zero digits;
+  C19-9 (file log handler lowered to WARNING when stderr is no terminal) -> `kskm-keymaster`'s
+  `main()` run with its own logging set-up and a non-terminal stderr: keygen, inventory, keydelete
+  with 'yes' and 'Yes'; what counts as reported is stderr plus the log file it opens.
+  Observation from C12-9's input (not a finding under any of the twenty properties): key identity
+  across bundles is decided on the base64 *text*; the same ZSK written on one line in one bundle and
+  broken into lines in another is reported as "key tag matches two different keys".
+* Everything else in the eight rounds was caught by the check as it stood.
 
 ### 10.9 Running it
 
